@@ -26,6 +26,93 @@ func init() {
 		"imin":  specMinMax(true),
 		"imax":  specMinMax(false),
 		"byteat": func(env *SpecEnv, args []Value) Value { return Sc{byteAt(env, args[0], intArg(args[1])), tU8} },
+		// oc16(x): x mod 65535 for a uint64 x; opaque unless revealed
+		"oc16": func(env *SpecEnv, args []Value) Value {
+			x := args[0].(Sc)
+			t := x.T
+			if x.Ty == untypedInt {
+				t = x.T
+			} else if t.Sort.W != 64 {
+				specErr("oc16 takes a uint64")
+			}
+			return Sc{App("spec|oc16", BVSort(64), t), tU64}
+		},
+		// wsum16(b, lo, hi): word sum of b[lo:hi] as uint64 (no wrap below 2^32 bytes)
+		"wsum16": func(env *SpecEnv, args []Value) Value {
+			row, off, _ := byteRow(env, args[0])
+			return Sc{wsumApp(row, Add(off, intArg(args[1])), Add(off, intArg(args[2]))), tU64}
+		},
+	}
+}
+
+// ---- wsum16: the RFC 1071 word sum as a mathematical (64-bit, non-wrapping) quantity ----
+//
+// wsum(row, lo, hi) is the sum of the big-endian 16-bit words row[lo..hi), pairing from lo;
+// a trailing odd byte counts as the high byte of a word. It is an uninterpreted function
+// whose defining equations (peeling from the end) are instantiated for every application
+// that occurs in a query (specAxioms).
+
+func byteRow(env *SpecEnv, b Value) (row, off, ln *Term) {
+	switch x := b.(type) {
+	case SlV:
+		name := "E|uint8|"
+		srt := ArraySort(RefSort, ArraySort(IntSort, BVSort(8)))
+		return Select(env.st.heap(name, srt), x.Arr), x.Off, x.Len
+	case StrV:
+		row := App("strrow", ArraySort(IntSort, BVSort(8)), x.S)
+		s := x.S
+		env.ex.addLazy(&LazyForall{Guard: True, Sort: IntSort, Desc: "string bytes as array", Body: func(k *Term) *Term {
+			return Eq(Select(row, k), strByte(s, k))
+		}})
+		return row, BVi(0, 64), strLen(x.S)
+	}
+	specErr("wsum16 of %T", b)
+	return nil, nil, nil
+}
+
+func wsumApp(row, lo, hi *Term) *Term {
+	return App("spec|wsum", BVSort(64), row, lo, hi)
+}
+
+// oc16 is DEFINED (not computed) as the unique function on naturals below 2^63 with
+//   (A1) oc16(x) < 65535,  (A3) x < 65535 ⇒ oc16(x) = x,  (A2) oc16(x + 65535·q) = oc16(x),
+// i.e. x mod 65535. A1 and A3 are instantiated for every application; A2 is applied
+// explicitly (`apply oc16_period(x, q)`), because solvers decide bvurem facts very slowly.
+var builtinLemmas = map[string]func(args []Value) *Term{
+	"oc16_period": func(args []Value) *Term {
+		x, q := args[0].(Sc).T, args[1].(Sc).T
+		if x.Sort.W != 64 || q.Sort.W != 64 {
+			specErr("oc16_period takes two uint64 values")
+		}
+		small := And(ULe(x, BVi(1<<48, 64)), ULe(q, BVi(1<<32, 64)))
+		return Implies(small, Eq(App("spec|oc16", BVSort(64), Add(x, Mul(BVi(65535, 64), q))), App("spec|oc16", BVSort(64), x)))
+	},
+}
+
+func init() {
+	revealAxioms["spec|oc16"] = func(app *Term) []*Term {
+		return []*Term{Eq(app, URem(app.Args[0], BVi(65535, 64)))}
+	}
+	specAxioms["spec|oc16"] = func(app *Term) []*Term {
+		x := app.Args[0]
+		return []*Term{ULt(app, BVi(65535, 64)), Implies(ULt(x, BVi(65535, 64)), Eq(app, x))}
+	}
+	specAxioms["spec|wsum"] = func(app *Term) []*Term {
+		row, lo, hi := app.Args[0], app.Args[1], app.Args[2]
+		n := Sub(hi, lo)
+		odd := Eq(BAnd(n, BVi(1, 64)), BVi(1, 64))
+		b16 := func(i *Term) *Term {
+			return ZExt(Concat(Select(row, i), Select(row, Add(i, BVi(1, 64)))), 64)
+		}
+		last := Sub(hi, BVi(1, 64))
+		last2 := Sub(hi, BVi(2, 64))
+		small := And(SLe(n, BVi(1<<32, 64)), SLe(BVi(0, 64), lo), SLe(lo, BVi(1<<42, 64)))
+		return []*Term{
+			Implies(SLe(hi, lo), Eq(app, BVi(0, 64))),
+			Implies(And(SLt(lo, hi), small, odd), Eq(app, Add(wsumApp(row, lo, last), Shl(ZExt(Select(row, last), 64), BVi(8, 64))))),
+			Implies(And(SLt(lo, hi), small, Not(odd)), Eq(app, Add(wsumApp(row, lo, last2), b16(last2)))),
+			Implies(And(SLe(lo, hi), small), ULe(app, Mul(BVi(65535, 64), LShr(Add(n, BVi(1, 64)), BVi(1, 64))))),
+		}
 	}
 }
 
